@@ -39,7 +39,7 @@ pub fn registry() -> Vec<PropEntry> {
         PropEntry { meta: &histprops::C08_META, check: |c| histprops::hist_check(c, &histprops::C08), replay: |_, _, v| histprops::hist_replay(&histprops::C08, v), fuzz: Some(|_| histprops::hist_fuzz_subs(&histprops::C08)) },
         PropEntry { meta: &histprops::C09_META, check: |c| histprops::hist_check(c, &histprops::C09), replay: |_, _, v| histprops::hist_replay(&histprops::C09, v), fuzz: Some(|_| histprops::hist_fuzz_subs(&histprops::C09)) },
         PropEntry { meta: &histprops::C13_META, check: |c| histprops::hist_check(c, &histprops::C13), replay: |_, sub, v| histprops::c13_replay(sub, v), fuzz: Some(|_| histprops::hist_fuzz_subs(&histprops::C13)) },
-        PropEntry { meta: &histprops::C14_META, check: |c| histprops::hist_check(c, &histprops::C14), replay: |_, _, v| histprops::hist_replay(&histprops::C14, v), fuzz: Some(|_| histprops::hist_fuzz_subs(&histprops::C14)) },
+        PropEntry { meta: &histprops::C14_META, check: |c| histprops::hist_check(c, &histprops::C14), replay: |_, sub, v| histprops::c14_replay(sub, v), fuzz: Some(|_| histprops::hist_fuzz_subs(&histprops::C14)) },
         PropEntry { meta: &histprops::C15_META, check: |c| histprops::hist_check(c, &histprops::C15), replay: |_, _, v| histprops::hist_replay(&histprops::C15, v), fuzz: Some(|_| histprops::hist_fuzz_subs(&histprops::C15)) },
         PropEntry { meta: &histprops::C16_META, check: |c| histprops::hist_check(c, &histprops::C16), replay: |_, _, v| histprops::hist_replay(&histprops::C16, v), fuzz: Some(|_| histprops::hist_fuzz_subs(&histprops::C16)) },
     ]
